@@ -286,9 +286,11 @@ theorem evFold_frame (armed : List Fd) (fd : Fd) (fds : List Fd) (acc : St × Li
 theorem C21_event_frame (s : St) (fd : Fd) (h : Cons s) : Cons (readyRead s fd).1 := by
   intro fd'
   have hh := evFold_frame s.armed fd (s.armed ++ (if has s.armed fd then [] else [fd])) (s, [])
+  have hK : (readyRead s fd).1.K = s.K := hh.1
+  have hR : (readyRead s fd).1.R = s.R := hh.2.1
+  have hW : (readyRead s fd).1.W = s.W := hh.2.2
   have := h fd'
-  simp only [readyRead, recorded] at this ⊢
-  rw [hh.1, hh.2.1, hh.2.2]
+  simp only [recorded, hK, hR, hW] at this ⊢
   exact this
 
 /-- Whole histories: after any sequence of interest operations, events and closes the OS interest of
